@@ -285,14 +285,21 @@ class GcodeHandlers(object):
         i = 0
         j = 0
 
+        # In relative positioning mode (G91), the X, Y and Z parameters are offsets from the current
+        # position.  The arc itself is always planned using absolute logical coordinates.
+        relativeMode = not position.X_AXIS.absoluteMode
+        startX = x
+        startY = y
+        startZ = z
+
         for label, value in self.gcodeParser.parse(cmd).parameterItems():
             if (value is not None):
                 if (label == "X"):
-                    x = value
+                    x = (startX + value) if (relativeMode) else value
                 elif (label == "Y"):
-                    y = value
+                    y = (startY + value) if (relativeMode) else value
                 elif (label == "Z"):
-                    z = value
+                    z = (startZ + value) if (relativeMode) else value
                 elif (label == "E"):
                     extruderPosition = value
                 elif (label == "F"):
@@ -310,6 +317,21 @@ class GcodeHandlers(object):
 
         if (i or j):
             xyPairs = self.planArc(x, y, i, j, clockwise)
+
+            if (relativeMode):
+                # processLinearMoves interprets the positions according to the positioning mode, so
+                # express each point as an offset from the point preceding it
+                prevX = startX
+                prevY = startY
+                for index in range(0, len(xyPairs), 2):
+                    pointX = xyPairs[index]
+                    pointY = xyPairs[index + 1]
+                    xyPairs[index] = pointX - prevX
+                    xyPairs[index + 1] = pointY - prevY
+                    prevX = pointX
+                    prevY = pointY
+                z -= startZ
+
             return self.state.processLinearMoves(cmd, extruderPosition, feedRate, z, *xyPairs)
 
         return None
